@@ -679,6 +679,11 @@ func c17HistStep(sp *saml2.SAMLServiceProvider, op int, st *c17HistState) string
 			if v != nil {
 				v.ID = "scribbled"
 			}
+		case []byte:
+			// a POST body: the caller may reuse the buffer it was given
+			for i := range v {
+				v[i] = 'X'
+			}
 		}
 		return "scribbled"
 	}
